@@ -5,6 +5,7 @@ package client
 import (
 	"github.com/aws/aws-sdk-go-v2/aws"
 	"github.com/aws/aws-sdk-go-v2/service/dynamodb"
+	"github.com/aws/aws-sdk-go-v2/service/dynamodb/types"
 	"github.com/truora/minidyn/internal/nd"
 )
 
@@ -253,4 +254,133 @@ func vC03MirrorOnKey(c *Client, m *vModel, id string) {
 		}
 		nd.Assert(ok, id+"-describe-index-count")
 	}
+}
+
+// VerifC03Local: the same mirror property for a local secondary index. Table (p, s) with LSI "lsi" on (p, g),
+// declared at creation; one partition "k"; n items with symbolic sort keys, each with or without g; then k
+// operations (PutItem with/without g, UpdateItem SET g - also creating the item -, UpdateItem REMOVE g,
+// DeleteItem, ClearTable), and after each the comparison of Scan(lsi), Query(lsi, p = k) in both directions and
+// the table's item count with the model: exactly the items that have g, each once with current values, ordered
+// by g.
+func VerifC03Local() {
+	n, k := nd.Param("n", 1), nd.Param("k", 2)
+	c := NewClient()
+	in := generateAddTableInput(vTbl, "p", "s")
+	in.AttributeDefinitions = append(in.AttributeDefinitions, types.AttributeDefinition{AttributeName: aws.String("g"), AttributeType: types.ScalarAttributeTypeS})
+	in.LocalSecondaryIndexes = []types.LocalSecondaryIndex{{IndexName: aws.String("lsi"),
+		KeySchema:  []types.KeySchemaElement{{AttributeName: aws.String("p"), KeyType: types.KeyTypeHash}, {AttributeName: aws.String("g"), KeyType: types.KeyTypeRange}},
+		Projection: &types.Projection{ProjectionType: types.ProjectionTypeAll}}}
+	_, err := c.CreateTable(vCtx, in)
+	nd.Assert(err == nil, "C03-local-createtable")
+	m := &vModel{withRange: true}
+	mirror := func(id string) {
+		want := 0
+		for _, r := range m.rows {
+			if _, ok := r.attrs["g"]; ok {
+				want++
+			}
+		}
+		out, serr := c.Scan(vCtx, &dynamodb.ScanInput{TableName: aws.String(vTbl), IndexName: aws.String("lsi")})
+		nd.Assert(serr == nil, id+"-scan-noerr")
+		if serr != nil {
+			return
+		}
+		nd.Assert(len(out.Items) == want && int(out.Count) == want, id+"-lsi-scan-size")
+		for _, r := range m.rows {
+			cnt := 0
+			for _, it := range out.Items {
+				if s, ok := vGetS(it, "s"); ok && s == r.k.s {
+					cnt++
+					nd.Assert(vSameItem(it, m.full(r.k, r.attrs)), id+"-lsi-scan-current-values")
+				}
+			}
+			if _, ok := r.attrs["g"]; ok {
+				nd.Assert(cnt == 1, id+"-lsi-scan-has-item-once")
+			} else {
+				nd.Assert(cnt == 0, id+"-lsi-scan-sparse")
+			}
+		}
+		for _, fwd := range []bool{true, false} {
+			q, qerr := c.Query(vCtx, &dynamodb.QueryInput{TableName: aws.String(vTbl), IndexName: aws.String("lsi"), ScanIndexForward: aws.Bool(fwd),
+				KeyConditionExpression: aws.String("p = :p"), ExpressionAttributeValues: vItem{":p": vS("k")}})
+			nd.Assert(qerr == nil, id+"-lsi-query-noerr")
+			if qerr != nil {
+				continue
+			}
+			nd.Assert(len(q.Items) == want, id+"-lsi-query-size")
+			for i := 1; i < len(q.Items); i++ {
+				a, _ := vGetS(q.Items[i-1], "g")
+				b, _ := vGetS(q.Items[i], "g")
+				if fwd {
+					nd.Assert(a <= b, id+"-lsi-query-ascending")
+				} else {
+					nd.Assert(a >= b, id+"-lsi-query-descending")
+				}
+			}
+		}
+		d, derr := c.DescribeTable(vCtx, &dynamodb.DescribeTableInput{TableName: aws.String(vTbl)})
+		nd.Assert(derr == nil && d.Table.ItemCount != nil && int(*d.Table.ItemCount) == len(m.rows), id+"-itemcount")
+		vInvariant(c, id)
+	}
+	attrsOf := func(name string) map[string]string {
+		attrs := map[string]string{"v": nd.StringN(name+".v", 1)}
+		if nd.Choice(name+".hasg", 2) == 1 {
+			attrs["g"] = nd.StringN(name+".g", 1)
+		}
+		return attrs
+	}
+	for i := 0; i < n; i++ {
+		nm := "k" + string(rune('0'+i))
+		key := vKey{p: "k", s: nd.StringN(nm+".s", 1)}
+		attrs := attrsOf(nm)
+		nd.Assert(vPut(c, m.full(key, attrs)) == nil, "C03-local-setup-put")
+		m.put(key, attrs)
+	}
+	mirror("C03-local-canon")
+	for step := 0; step < k; step++ {
+		nm := "o" + string(rune('0'+step))
+		key := vKey{p: "k", s: nd.StringN(nm+".s", 1)}
+		old, _ := m.get(key)
+		switch nd.Choice(nm+".op", 5) {
+		case 0:
+			nd.Reach("put")
+			attrs := attrsOf(nm)
+			nd.Assert(vPut(c, m.full(key, attrs)) == nil, "C03-local-put-noerr")
+			m.put(key, attrs)
+		case 1:
+			nd.Reach("update-set")
+			x := nd.StringN(nm+".x", 1)
+			_, uerr := c.UpdateItem(vCtx, &dynamodb.UpdateItemInput{TableName: aws.String(vTbl), Key: key.item(true),
+				UpdateExpression: aws.String("SET g = :x"), ExpressionAttributeValues: vItem{":x": vS(x)}})
+			nd.Assert(uerr == nil, "C03-local-update-noerr")
+			na := map[string]string{}
+			for a, v := range old {
+				na[a] = v
+			}
+			na["g"] = x
+			m.put(key, na)
+		case 2:
+			nd.Reach("update-remove")
+			_, uerr := c.UpdateItem(vCtx, &dynamodb.UpdateItemInput{TableName: aws.String(vTbl), Key: key.item(true), UpdateExpression: aws.String("REMOVE g")})
+			nd.Assert(uerr == nil, "C03-local-remove-noerr")
+			na := map[string]string{}
+			for a, v := range old {
+				if a != "g" {
+					na[a] = v
+				}
+			}
+			m.put(key, na)
+		case 3:
+			nd.Reach("delete")
+			_, derr := c.DeleteItem(vCtx, &dynamodb.DeleteItemInput{TableName: aws.String(vTbl), Key: key.item(true)})
+			nd.Assert(derr == nil, "C03-local-delete-noerr")
+			m.del(key)
+		case 4:
+			nd.Reach("clear")
+			nd.Assert(ClearTable(c, vTbl) == nil, "C03-local-clear-noerr")
+			m.rows = nil
+		}
+		mirror("C03-local-step")
+	}
+	nd.Reach("end")
 }
